@@ -1,3 +1,3 @@
 From Coq Require Import extraction.ExtrOcamlBasic.
 From DS Require Import BloomDefs.
-Extraction "model_bloom.ml" BloomDefs.run BloomDefs.run_fixed.
+Extraction "model_bloom.ml" BloomDefs.run.
